@@ -174,8 +174,8 @@ func (o *oracle) released(n *Node, kind string, H uint64, R int, id types.BlockI
 	}
 	set[bk] = true
 	o.note(n.idx, v)
+	c.Evals(1)
 	if o.cl.mode == ModeSigner {
-		c.Evals(1)
 		short := bk
 		if len(short) > 10 {
 			short = short[:10]
@@ -290,6 +290,7 @@ func (o *oracle) badByHash(b *types.Block) (string, bool) {
 // committed: node n committed block (CommitBlock returned nil error).
 func (o *oracle) committed(n *Node, block *types.Block) {
 	c := o.cl.c
+	c.Evals(1)
 	H := block.Height
 	hk := fmt.Sprintf("%x", block.Hash().Bytes())
 	m := o.commits[H]
